@@ -4,11 +4,11 @@
     delete_connection, add_column, delete_column, add_layer, delete_layer break clauses of [Inv]. *)
 From Coq Require Import Ascii String List Bool PArith NArith ZArith QArith FMapPositive Permutation Lia.
 From PTBase Require Import Exn PyStr.
-From P Require Import Assoc GeoState GeoEdit GeoEdit2 GeoStep Inv InvNames InvSimple Sets InvCol InvConn InvDel InvRefresh InvRename InvCompound InvSplit InvSplit2 InvSnap InvDecomp InvRefine Reach.
+From P Require Import Assoc GeoState GeoEdit GeoEdit2 GeoStep Inv InvNames InvSimple Sets InvCol InvConn InvDel InvRefresh InvRename InvCompound InvSplit InvSplit2 InvSnap InvDecomp InvRefine InvCheck Reach.
 Import ListNotations.
 Open Scope list_scope.
 
-Definition nofix : fixes := {| fx_rename := false; fx_split := false; fx_nbr := false |}.
+Definition nofix : fixes := {| fx_rename := false; fx_split := false; fx_nbr := false; fx_check := false |}.
 Definition na : str := s2l "  a". Definition nb : str := s2l "  b". Definition nc : str := s2l "  c".
 Definition nd : str := s2l "  d". Definition ne : str := s2l "  e". Definition nf : str := s2l "  f".
 Definition nz : str := s2l "  z".
@@ -172,7 +172,7 @@ Proof.
 Qed.
 
 (** ** the repaired source (proposed_fixes/C10-*.diff): the same calls keep the invariant *)
-Definition allfix : fixes := {| fx_rename := true; fx_split := true; fx_nbr := false |}.
+Definition allfix : fixes := {| fx_rename := true; fx_split := true; fx_nbr := false; fx_check := false |}.
 Definition g_two_fixed : geo := Eval vm_compute in set_fx g_two allfix.
 Lemma g_two_fixed_inv : Inv g_two_fixed.
 Proof.
@@ -195,7 +195,7 @@ Proof.
 Qed.
 
 (** ** the precondition of the split theorem is needed, in the repaired source too *)
-Definition splitfix : fixes := {| fx_rename := true; fx_split := true; fx_nbr := true |}.
+Definition splitfix : fixes := {| fx_rename := true; fx_split := true; fx_nbr := true; fx_check := false |}.
 Definition nt : str := s2l "zzz".
 Definition ops_overlap : list op :=
   [AddNode na (P 0 0); AddNode nb (P 1 0); AddNode ne (P 1 1); AddNode nd (P 0 1);
@@ -268,4 +268,22 @@ Proof.
   split.
   - exact (refine_inv g_two [na] h_ref g_refined g_two_inv ref_conns_ok g_refined_run).
   - exact (refine_new_nodes_used g_two [na] h_ref g_refined (i_s _ g_two_inv) g_two_refine_conforming g_refined_run).
+Qed.
+
+(** ** two more instances of "derived data is not refreshed" (source as it stands) *)
+(** check(fix = True) adds the missing connection of two adjacent unconnected columns: the neighbour sets (before aa68858)
+    and the connection name list are left as they were *)
+Theorem check_fix_refuted :
+  exists g hm_ hbad g', Inv g /\ check_fix g hm_ hbad = Ok g' /\ ~ S6 g'.
+Proof.
+  exists g_open, [(na, nb)], [], (result (check_fix g_open [(na, nb)] [])).
+  split; [exact g_open_inv|]. split; [vm_compute; reflexivity|]. intros [_ K]. vm_compute in K. discriminate K.
+Qed.
+(** triangulate_column replaces a column by triangles around a new centre node and returns: block_name_list and
+    block_connection_name_list still name the blocks of the old column *)
+Theorem triangulate_column_refuted :
+  exists g n g' names, Inv g /\ triangulate_column g n = Ok (g', names) /\ ~ S6 g'.
+Proof.
+  exists g_two, na. eexists. eexists. split; [exact g_two_inv|]. split; [vm_compute; reflexivity|].
+  intros [B _]. vm_compute in B. discriminate B.
 Qed.
